@@ -179,13 +179,13 @@ theorem C09_process_stops_orderly (rpms : List Bool) (sched : List Choice) :
     interrupts fan 1 (also regulating), which restores too; exit status 0 -/
 example :
     (Lifecycle.lrun .fixed (Lifecycle.linit [false, false])
-      [.ctl 0 .advance, .ctl 0 .advance, .ctl 0 .advance, .ctl 0 .tick,
-       .ctl 1 .advance, .ctl 1 .advance, .ctl 1 .advance, .ctl 1 .tick,
+      [.ctl 0 .advance, .ctl 0 .advance, .ctl 0 .advance, .ctl 0 .advance, .ctl 0 .advance, .ctl 0 .tick,
+       .ctl 1 .advance, .ctl 1 .advance, .ctl 1 .advance, .ctl 1 .advance, .ctl 1 .advance, .ctl 1 .tick,
        .ctl 0 .fail, .ctl 0 .advance, .ctl 0 .advance, .interrupt, .sigActor,
        .ctl 1 .seeCancel, .ctl 1 .advance, .ctl 1 .advance, .exit]).proc = .exited 0 ∧
     ((Lifecycle.lrun .fixed (Lifecycle.linit [false, false])
-      [.ctl 0 .advance, .ctl 0 .advance, .ctl 0 .advance, .ctl 0 .tick,
-       .ctl 1 .advance, .ctl 1 .advance, .ctl 1 .advance, .ctl 1 .tick,
+      [.ctl 0 .advance, .ctl 0 .advance, .ctl 0 .advance, .ctl 0 .advance, .ctl 0 .advance, .ctl 0 .tick,
+       .ctl 1 .advance, .ctl 1 .advance, .ctl 1 .advance, .ctl 1 .advance, .ctl 1 .advance, .ctl 1 .tick,
        .ctl 0 .fail, .ctl 0 .advance, .ctl 0 .advance, .interrupt, .sigActor,
        .ctl 1 .seeCancel, .ctl 1 .advance, .ctl 1 .advance, .exit]).ctls.map
         (fun c => (c.regulated, c.restored))) = [(true, true), (true, true)] := by decide
